@@ -137,9 +137,9 @@ theorem c01x_hyp3 : Hyp3 c02x_cfg 0 c01x_hist := by
     unfold c01x_nodeOk at this
     simp only [Bool.and_eq_true, Bool.or_eq_true, decide_eq_true_eq, Option.isNone_iff_eq_none] at this
     exact ⟨this.1.1, this.1.2, this.2⟩
-  refine ⟨⟨⟨c01x_history, fun s hs => (hall s hs).1, by decide, by decide, by decide, ?_,
+  refine ⟨⟨⟨⟨c01x_history, fun s hs => (hall s hs).1, by decide, by decide, by decide, ?_,
     chained_at _ c01x_ksteps, fun s hs => (hall s hs).2.1, fun s hs x hx => ((hall s hs).2.2.1 x hx).1⟩,
-    c01x_nolone, fun s hs i st hi => ⟨(hnode s hs i st hi).1, (hnode s hs i st hi).2.1⟩, ?_,
+    c01x_nolone, fun s hs i st hi => ⟨(hnode s hs i st hi).1, (hnode s hs i st hi).2.1⟩, ?_⟩,
     fun s hs x hx => ((hall s hs).2.2.1 x hx).2.1⟩,
     fun s hs x hx => ((hall s hs).2.2.1 x hx).2.2, ?_⟩
   · intro s hs
